@@ -23,6 +23,9 @@ func c06Exec(m *bMon) func(ctx context.Context, item Result) (Result, error) {
 				err = m.errTok[k]
 			} else {
 				m.outTok[k] = &vTok{id: 700 + k}
+				if m.nilOut {
+					m.outTok[k] = nil
+				}
 				res = NewResult(m.outTok[k])
 			}
 		})
@@ -73,6 +76,11 @@ func VH_C06_batch() {
 	m.checkSettled = true
 	if !m.stop {
 		m.minStarts = 1
+	}
+	if vParam("nilOutcomes", 1) > 0 && vNondet[bool]("successfulItemsYieldNil") {
+		// a processed item whose outcome is a nil value is a success like any other
+		vCover("successful-items-yield-nil")
+		m.nilOut = true
 	}
 	b := bNode(m, c06Exec(m))
 	_, err := Run(m.ctx, b, NewSharedStore())
